@@ -128,8 +128,9 @@ def copy(node):
 
 # --------------------------------------------------------------------------- repository side
 
-def build(case, T):
-    """Build a repository tree through the Tree API (never through a reader)."""
+def build(case, T, index=None):
+    """Build a repository tree through the Tree API (never through a reader).
+    index (dict) receives id(model node) -> repository node."""
     def rec(node):
         data = T.make_node_data()
         if is_tok(node):
@@ -148,6 +149,8 @@ def build(case, T):
             if short in node:
                 data[name] = node[short]
         tree = T.Tree(data)
+        if index is not None:
+            index[id(node)] = tree
         for child in node.get("c", ()):
             sub = rec(child)
             sub.parent = tree
